@@ -100,6 +100,7 @@ func renderStructLit(v ssa.Value, s *Symer) string {
 }
 
 func runC27(c *Ctx) {
+	c27NextQuery(c)
 	bd := boolDom()
 	// V1
 	pp := "private/storage/path/sqlite."
